@@ -6,6 +6,7 @@ From Coq Require Import ZArith Reals.
 From Flocq Require Import Core BinarySingleNaN.
 Require Import MPSV.Dpe.DpeDefs MPSV.Dpe.DpeModel MPSV.Dpe.DpeProps.
 Require Import MPSV.Dpe.DpeArith MPSV.Dpe.DpePow MPSV.Dpe.DpeCplx MPSV.Dpe.DpeSat.
+Require Import MPSV.Dpe.DpeModel2 MPSV.Dpe.DpeScal MPSV.Dpe.DpeCplx2 MPSV.Dpe.DpeCpowDefs MPSV.Dpe.DpeCpow.
 Open Scope Z_scope.
 
 (* rdpe_Norm returns a normalised value denoting exactly the same real (exponent sum in range) *)
@@ -360,8 +361,8 @@ Proof.
   split. split; unfold esp_small; vm_compute; intro; discriminate.
   vm_compute. repeat split; reflexivity.
 Qed.
-(* MISSING (differential + exact predicate only): cdpe_inv, cdpe_div, cdpe_pow_si, cdpe_mul_x have no Coq
-   error theorem; the derivation on paper gives about 5.1 and 8.4 ulps for inv and div. *)
+(* (round 4 note: cdpe_inv, cdpe_div, cdpe_pow_si, cdpe_mul_x had no Coq error theorem; they have one now, see
+   C12_cinv_rel, C12_cdiv_rel, C12_cpow_si_rel, C12_cmul_x_rel at the end of this file) *)
 
 (* ---- "saturating instead of wrapping", operation by operation (repaired code) --------------------------------- *)
 (* rdpe_Norm clamps: exponent = clamp (e + frexp exponent) for a non-zero mantissa, 0 for a zero one *)
@@ -429,3 +430,327 @@ Example C12_get_d_nonvacuous :   (* 0.5 * 2^-1073 = 2^-1074 (smallest subnormal)
   to_bits (rdpe_get_d (Rdpe fhalf (-1073))) = 1 /\ to_bits (rdpe_get_d (Rdpe fhalf (-1074))) = 0 /\
   to_bits (rdpe_get_d (Rdpe fhalf 1025)) = 9218868437227405312 /\ to_bits (rdpe_get_d (Rdpe fhalf LONG_MAX)) = 9218868437227405312.
 Proof. vm_compute. repeat split; reflexivity. Qed.
+
+(* ================================================================================================== *)
+(* Round 6: the former PARTIAL list.                                                                     *)
+(*   *_fix = the function as repaired by fixes/C12_dpe_{mul,div}_d_mantissa_range.patch (DpeModel2.v);   *)
+(*   sat_rdpe m s = the DPE (m, s) with s saturated to long: (m, s) in range, +-1/2 at LONG_MAX/LONG_MIN *)
+(*   outside (sign of m);  half_sign m = +-1/2 with the sign of m.                                       *)
+(* ================================================================================================== *)
+
+(* ---- zero operands of rdpe_mul / rdpe_div (every exponent of long, saturation tests included) ------------------- *)
+Theorem C12_mul_zero : forall x y, normalised x -> normalised y -> in_long (esp x) -> in_long (esp y) ->
+  (~ nonzero x \/ ~ nonzero y) -> normalised (rdpe_mul x y) /\ rval (rdpe_mul x y) = 0%R.
+Proof. exact mul_zero. Qed.
+Print Assumptions C12_mul_zero.
+Theorem C12_div_zero : forall x y, normalised x -> ~ nonzero x -> nonzero y ->
+  normalised (rdpe_div x y) /\ rval (rdpe_div x y) = 0%R.
+Proof. exact div_zero. Qed.
+Print Assumptions C12_div_zero.
+Example C12_mul_zero_nonvacuous :    (* 0 * 2^LONG_MAX (the overflow test fires) and 0 * 2^LONG_MIN: canonical zero *)
+  same_rdpe (rdpe_mul rdpe_zero (Rdpe fhalf LONG_MAX)) rdpe_zero /\ same_rdpe (rdpe_mul (Rdpe fhalf LONG_MIN) rdpe_zero) rdpe_zero.
+Proof. vm_compute. repeat split; reflexivity. Qed.
+
+(* ---- the *_d variants -------------------------------------------------------------------------------------------------- *)
+(* as they are: the double operation mantissa * d (mantissa / d) itself leaves the range of double;
+   witnesses replayed on the real code by checks/C12.py (known findings rel:mul_d:..., rel:div_d:...) *)
+Theorem C12_d_variants_unfixed_refuted :
+  let x := Rdpe fthreeq 0 in let tiny : b64 := of_bits 1 in
+  (to_bits (mnt (rdpe_mul_d x tiny)) = to_bits fhalf /\ esp (rdpe_mul_d x tiny) = -1073 /\
+   to_bits (mnt (rdpe_mul_d_fix x tiny)) = to_bits fthreeq /\ esp (rdpe_mul_d_fix x tiny) = -1074) /\
+  (to_bits (mnt (rdpe_div_d x tiny)) = 9218868437227405312 /\
+   to_bits (mnt (rdpe_div_d_fix x tiny)) = to_bits fthreeq /\ esp (rdpe_div_d_fix x tiny) = 1074).
+Proof. exact d_variants_unfixed_refuted. Qed.
+Print Assumptions C12_d_variants_unfixed_refuted.
+
+(* as repaired (d converted with rdpe_set_d, then the DPE x DPE function): one ulp for EVERY finite double d --
+   zero, subnormal, DBL_MAX -- and every normalised x (zero included) whose exponent is 1100 away from the ends of long *)
+Theorem C12_mul_d_rel : forall x d, normalised x -> is_finite d = true ->
+  LONG_MIN + 1074 <= esp x <= LONG_MAX - 1026 ->
+  normalised (rdpe_mul_d_fix x d) /\ rel_e u53 (rval (rdpe_mul_d_fix x d)) (rval x * B2R d).
+Proof. exact mul_d_fix_rel. Qed.
+Print Assumptions C12_mul_d_rel.
+Theorem C12_div_d_rel : forall x d, normalised x -> is_finite d = true -> B2R d <> 0%R ->
+  LONG_MIN + 1025 <= esp x <= LONG_MAX - 1075 ->
+  normalised (rdpe_div_d_fix x d) /\ rel_e u53 (rval (rdpe_div_d_fix x d)) (rval x / B2R d).
+Proof. exact div_d_fix_rel. Qed.
+Print Assumptions C12_div_d_rel.
+Example C12_d_rel_nonvacuous :     (* 3 * DBL_MIN and 3 / DBL_MAX-ish: exact through the repaired code *)
+  let three := Rdpe fthreeq 2 in let dmin : b64 := of_bits 4503599627370496 in
+  is_finite dmin = true /\ B2R dmin <> 0%R /\ LONG_MIN + 1074 <= esp three <= LONG_MAX - 1026 /\
+  same_rdpe (rdpe_mul_d_fix three dmin) (Rdpe fthreeq (-1020)) /\ same_rdpe (rdpe_div_d_fix three dmin) (Rdpe fthreeq 1024).
+Proof.
+  split. reflexivity. split. { apply Rgt_not_eq. apply Rlt_gt. unfold B2R, F2R. vm_compute Fnum. vm_compute Fexp.
+    apply Rmult_lt_0_compat; [apply IZR_lt; reflexivity|apply bpow_gt_0]. }
+  vm_compute. repeat split; try reflexivity; intro; discriminate.
+Qed.
+
+(* cdpe_mul_e / cdpe_div_e (and their _eq forms), component by component: one ulp each, hence one ulp in modulus *)
+Theorem C12_cmul_e_rel : forall c e, cnormalised c -> normalised e ->
+  in_long (esp (cre c)) -> in_long (esp (cim c)) -> in_long (esp e) ->
+  LONG_MIN + 1 <= esp (cre c) + esp e <= LONG_MAX - 2 -> LONG_MIN + 1 <= esp (cim c) + esp e <= LONG_MAX - 2 ->
+  cnormalised (cdpe_mul_e c e) /\
+  rel_e u53 (rval (cre (cdpe_mul_e c e))) (rval (cre c) * rval e) /\
+  rel_e u53 (rval (cim (cdpe_mul_e c e))) (rval (cim c) * rval e).
+Proof. exact cmul_e_rel. Qed.
+Print Assumptions C12_cmul_e_rel.
+Theorem C12_cdiv_e_rel : forall c e, cnormalised c -> normalised e -> nonzero e ->
+  LONG_MIN + 1 <= esp (cre c) - esp e <= LONG_MAX - 2 -> LONG_MIN + 1 <= esp (cim c) - esp e <= LONG_MAX - 2 ->
+  cnormalised (cdpe_div_e c e) /\
+  rel_e u53 (rval (cre (cdpe_div_e c e))) (rval (cre c) / rval e) /\
+  rel_e u53 (rval (cim (cdpe_div_e c e))) (rval (cim c) / rval e).
+Proof. exact cdiv_e_rel. Qed.
+Print Assumptions C12_cdiv_e_rel.
+(* cdpe_mul_d / cdpe_div_d (and _eq) as repaired *)
+Theorem C12_cmul_d_rel : forall c d, cnormalised c -> is_finite d = true ->
+  LONG_MIN + 1074 <= esp (cre c) <= LONG_MAX - 1026 -> LONG_MIN + 1074 <= esp (cim c) <= LONG_MAX - 1026 ->
+  cnormalised (cdpe_mul_d_fix c d) /\
+  rel_e u53 (rval (cre (cdpe_mul_d_fix c d))) (rval (cre c) * B2R d) /\
+  rel_e u53 (rval (cim (cdpe_mul_d_fix c d))) (rval (cim c) * B2R d).
+Proof. exact cmul_d_fix_rel. Qed.
+Print Assumptions C12_cmul_d_rel.
+Theorem C12_cdiv_d_rel : forall c d, cnormalised c -> is_finite d = true -> B2R d <> 0%R ->
+  LONG_MIN + 1025 <= esp (cre c) <= LONG_MAX - 1075 -> LONG_MIN + 1025 <= esp (cim c) <= LONG_MAX - 1075 ->
+  cnormalised (cdpe_div_d_fix c d) /\
+  rel_e u53 (rval (cre (cdpe_div_d_fix c d))) (rval (cre c) / B2R d) /\
+  rel_e u53 (rval (cim (cdpe_div_d_fix c d))) (rval (cim c) / B2R d).
+Proof. exact cdiv_d_fix_rel. Qed.
+Print Assumptions C12_cdiv_d_rel.
+
+(* ---- "saturating instead of wrapping" for whole operations, EVERY exponent of long (no `by shape`) ---------------- *)
+(* rdpe_set_esp followed by rdpe_Norm (the tail of rdpe_inv, rdpe_sqr, rdpe_div, cdpe_mul_e, cdpe_div_e) is one
+   saturating operation on a finite non-zero mantissa f with (z, i) = frexp f *)
+Theorem C12_norm_set_esp_sat : forall (f : b64) (e0 a b : Z) (sub : bool),
+  is_finite f = true -> B2R f <> 0%R -> in_long a -> in_long b ->
+  let s := if sub then a - b else a + b in
+  let r := rdpe_norm (rdpe_set_esp (Rdpe f e0) a b sub) in
+  (in_long s -> r = sat_rdpe (fst (ffrexp f)) (s + snd (ffrexp f))) /\
+  (LONG_MAX < s -> r = Rdpe (half_sign f) LONG_MAX) /\
+  (s < LONG_MIN -> r = Rdpe (half_sign f) LONG_MIN) /\
+  in_long (esp r) /\ half_sign (mnt r) = half_sign f.
+Proof. exact norm_set_esp_sat. Qed.
+Print Assumptions C12_norm_set_esp_sat.
+(* sat_result r neg f s: r has its exponent in long; it is (frexp mantissa of f, s + frexp exponent) saturated when s is
+   in range, +-1/2 at LONG_MAX / LONG_MIN when s is above / below; its sign is `neg`; the frexp exponent is in [-1, 2] *)
+Theorem C12_inv_saturates : forall x, normalised x -> nonzero x -> in_long (esp x) ->
+  sat_result (rdpe_inv x) (flt0 (mnt x)) (fdiv fone (mnt x)) (- esp x).
+Proof. exact inv_saturates. Qed.
+Print Assumptions C12_inv_saturates.
+Theorem C12_sqr_saturates_full : forall x, normalised x -> nonzero x -> in_long (esp x) ->
+  sat_result (rdpe_sqr x) false (fmul (mnt x) (mnt x)) (esp x + esp x).
+Proof. exact sqr_saturates_full. Qed.
+Print Assumptions C12_sqr_saturates_full.
+Theorem C12_div_saturates : forall x y, normalised x -> normalised y -> nonzero x -> nonzero y ->
+  in_long (esp x) -> in_long (esp y) ->
+  sat_result (rdpe_div x y) (xorb (flt0 (mnt x)) (flt0 (mnt y))) (fdiv (mnt x) (mnt y)) (esp x - esp y).
+Proof. exact div_saturates. Qed.
+Print Assumptions C12_div_saturates.
+(* rdpe_mul: +-RDPE_MAX (sign of the product) when e1 + e2 >= LONG_MAX, zero when e1 + e2 <= LONG_MIN (the C code flushes
+   to zero here, rdpe_set_esp elsewhere saturates to +-RDPE_MIN: both are accepted by the property), otherwise the
+   normalised product with the exact exponent sum saturated once *)
+Theorem C12_mul_saturates : forall x y, normalised x -> normalised y -> nonzero x -> nonzero y ->
+  in_long (esp x) -> in_long (esp y) ->
+  let neg := xorb (flt0 (mnt x)) (flt0 (mnt y)) in
+  let f := fmul (mnt x) (mnt y) in
+  (LONG_MAX <= esp x + esp y -> rdpe_mul x y = Rdpe (if neg then fneg fhalf else fhalf) LONG_MAX) /\
+  (esp x + esp y <= LONG_MIN -> rdpe_mul x y = rdpe_zero) /\
+  (LONG_MIN < esp x + esp y < LONG_MAX ->
+     rdpe_mul x y = sat_rdpe (fst (ffrexp f)) (esp x + esp y + snd (ffrexp f)) /\ -1 <= snd (ffrexp f) <= 2).
+Proof. exact mul_saturates. Qed.
+Print Assumptions C12_mul_saturates.
+Example C12_op_saturates_nonvacuous :   (* 1 / (-0.5 * 2^LONG_MIN) = -2^(LONG_MAX + 2): saturates to -1/2 * 2^LONG_MAX *)
+  let x := Rdpe fmhalf LONG_MIN in
+  normalised x /\ in_long (esp x) /\ same_rdpe (rdpe_inv x) (Rdpe fmhalf LONG_MAX) /\
+  same_rdpe (rdpe_div (Rdpe fhalf LONG_MIN) (Rdpe fmhalf 5)) (Rdpe fmhalf LONG_MIN).
+Proof. split. apply normalised_mhalf. vm_compute. repeat split; try reflexivity; intro; discriminate. Qed.
+
+(* ---- scaling by 2^i for EVERY unsigned long i (rdpe_mul_2exp, rdpe_div_2exp, the _eq and cdpe forms are rdpe_shift_esp) -- *)
+Theorem C12_scale_2exp : forall x i (sub : bool), normalised x -> nonzero x -> in_long (esp x) -> 0 <= i <= ULONG_MAX ->
+  rdpe_shift_esp x i sub = sat_rdpe (mnt x) (if sub then esp x - i else esp x + i).
+Proof. exact shift_esp_full. Qed.
+Print Assumptions C12_scale_2exp.
+Theorem C12_scale_2exp_zero : forall x i (sub : bool), normalised x -> ~ nonzero x -> rdpe_shift_esp x i sub = x.
+Proof. exact shift_esp_zero. Qed.
+Print Assumptions C12_scale_2exp_zero.
+Example C12_scale_2exp_nonvacuous :   (* i = ULONG_MAX: 2^LONG_MIN * 2^(2^64-1) = 2^LONG_MAX exactly (three rounds); one more saturates *)
+  same_rdpe (rdpe_mul_2exp (Rdpe fthreeq LONG_MIN) ULONG_MAX) (Rdpe fthreeq LONG_MAX) /\
+  same_rdpe (rdpe_mul_2exp (Rdpe fthreeq (LONG_MIN + 1)) ULONG_MAX) (Rdpe fhalf LONG_MAX) /\
+  same_rdpe (rdpe_div_2exp (Rdpe fmhalf 7) (LONG_MAX + 10)) (Rdpe fmhalf LONG_MIN) /\
+  same_rdpe (rdpe_div_2exp (Rdpe fmhalf LONG_MAX) (LONG_MAX + 10)) (Rdpe fmhalf (-10)).
+Proof. vm_compute. repeat split; reflexivity. Qed.
+
+(* ---- rdpe_set_2dl (d, l) = d * 2^l for every finite double and every long l -------------------------------------- *)
+Theorem C12_set_2dl_full : forall (d : b64) (l : Z), is_finite d = true -> in_long l ->
+  let r := rdpe_set_2dl d l in
+  normalised r /\
+  (B2R d = 0%R -> rval r = 0%R /\ esp r = 0) /\
+  (B2R d <> 0%R ->
+     r = sat_rdpe (fst (ffrexp d)) (l + snd (ffrexp d)) /\ -1073 <= snd (ffrexp d) <= 1024 /\
+     (in_long (l + snd (ffrexp d)) -> rval r = (B2R d * bpow radix2 l)%R) /\
+     (LONG_MAX < l + snd (ffrexp d) -> r = Rdpe (half_sign d) LONG_MAX) /\
+     (l + snd (ffrexp d) < LONG_MIN -> r = Rdpe (half_sign d) LONG_MIN)).
+Proof. exact set_2dl_full. Qed.
+Print Assumptions C12_set_2dl_full.
+Example C12_set_2dl_nonvacuous :    (* the smallest subnormal times 2^LONG_MAX is in range; 4 * 2^LONG_MAX saturates *)
+  same_rdpe (rdpe_set_2dl (of_bits 1) LONG_MAX) (Rdpe fhalf (LONG_MAX - 1073)) /\
+  same_rdpe (rdpe_set_2dl (of_bits 13839561654909534208) LONG_MAX) (Rdpe fmhalf LONG_MAX).
+Proof. vm_compute. repeat split; reflexivity. Qed.
+
+(* ---- conversion to double for every exponent: correctly rounded up to 2^1024 (also far below the subnormals: zero),
+        infinity with the sign of the value above ------------------------------------------------------------------------ *)
+Theorem C12_get_d_full : forall x, normalised x ->
+  (esp x <= 1024 -> is_finite (rdpe_get_d x) = true /\
+                    B2R (rdpe_get_d x) = round radix2 (SpecFloat.fexp 53 1024) ZnearestE (rval x)) /\
+  (1024 < esp x -> nonzero x -> rdpe_get_d x = B754_infinity (Bsign (mnt x))).
+Proof. exact get_d_full. Qed.
+Print Assumptions C12_get_d_full.
+
+(* ---- complex operations in modulus:  dist2 x y a b = (x-a)^2 + (y-b)^2,  mod2 a b = a^2 + b^2 --------------------------- *)
+(* cdpe_add / cdpe_sub / cdpe_add_eq (cdpe_sub_eq is cdpe_sub): two ulps in modulus, zero components allowed;
+   cmid c := both exponents in [LONG_MIN + 1074, LONG_MAX - 1024] *)
+Theorem C12_cadd_rel : forall z w, cnormalised z -> cnormalised w -> cmid z -> cmid w ->
+  cnormalised (cdpe_add z w) /\
+  (dist2 (rval (cre (cdpe_add z w))) (rval (cim (cdpe_add z w))) (rval (cre z) + rval (cre w)) (rval (cim z) + rval (cim w))
+   <= 4 * (u53 * u53) * mod2 (rval (cre z) + rval (cre w)) (rval (cim z) + rval (cim w)))%R.
+Proof. exact cadd_rel. Qed.
+Print Assumptions C12_cadd_rel.
+Theorem C12_csub_rel : forall z w, cnormalised z -> cnormalised w -> cmid z -> cmid w ->
+  cnormalised (cdpe_sub z w) /\
+  (dist2 (rval (cre (cdpe_sub z w))) (rval (cim (cdpe_sub z w))) (rval (cre z) - rval (cre w)) (rval (cim z) - rval (cim w))
+   <= 4 * (u53 * u53) * mod2 (rval (cre z) - rval (cre w)) (rval (cim z) - rval (cim w)))%R.
+Proof. exact csub_rel. Qed.
+Print Assumptions C12_csub_rel.
+Theorem C12_cadd_eq_rel : forall z w, cnormalised z -> cnormalised w -> cmid z -> cmid w ->
+  cnormalised (cdpe_add_eq z w) /\
+  (dist2 (rval (cre (cdpe_add_eq z w))) (rval (cim (cdpe_add_eq z w))) (rval (cre z) + rval (cre w)) (rval (cim z) + rval (cim w))
+   <= 4 * (u53 * u53) * mod2 (rval (cre z) + rval (cre w)) (rval (cim z) + rval (cim w)))%R.
+Proof. exact cadd_eq_rel. Qed.
+Print Assumptions C12_cadd_eq_rel.
+Example C12_caddsub_nonvacuous :    (* (1 + i) - (1 + i) = 0 ;  (1 + i) + (1 - i) = 2 *)
+  let one_i := Cdpe (Rdpe fhalf 1) (Rdpe fhalf 1) in let one_mi := Cdpe (Rdpe fhalf 1) (Rdpe fmhalf 1) in
+  cnormalised one_i /\ cmid one_i /\ same_rdpe (cre (cdpe_sub one_i one_i)) rdpe_zero /\
+  same_rdpe (cre (cdpe_add one_i one_mi)) (Rdpe fhalf 2) /\ same_rdpe (cim (cdpe_add one_i one_mi)) rdpe_zero.
+Proof.
+  split. split; apply normalised_half.
+  split. split; unfold esp_mid; vm_compute; split; intro; discriminate.
+  vm_compute. repeat split; reflexivity.
+Qed.
+
+(* cdpe_mul with the second operand's exponents up to 2^62 (what cdpe_div needs); esp_le x B := |esp x| <= B *)
+Theorem C12_cmul_rel_gen : forall z w, cnormalised z -> cnormalised w -> csmall z ->
+  esp_le (cre w) (2 ^ 62) -> esp_le (cim w) (2 ^ 62) ->
+  let a := rval (cre z) in let b := rval (cim z) in let c := rval (cre w) in let d := rval (cim w) in
+  cnormalised (cdpe_mul z w) /\
+  (dist2 (rval (cre (cdpe_mul z w))) (rval (cim (cdpe_mul z w))) (a * c - b * d) (b * c + a * d)
+   <= 19 * (u53 * u53) * (mod2 a b * mod2 c d))%R.
+Proof. exact cmul_rel_gen. Qed.
+Print Assumptions C12_cmul_rel_gen.
+
+(* cdpe_inv (and cdpe_inv_eq), as coded: e = 1 / (|c|^2 computed), Re = Re c * e, Im = - Im c * e:
+   six ulps per component ((1+u)^2 (1 + s + 2 s^2) - 1 with s = 3u + 2u^2, about 5.1 u), hence six ulps in modulus *)
+Theorem C12_cinv_rel : forall c, cnormalised c -> csmall c -> (mod2 (rval (cre c)) (rval (cim c)) <> 0)%R ->
+  let a := rval (cre c) in let b := rval (cim c) in let s := mod2 a b in
+  cnormalised (cdpe_inv c) /\
+  rel_e (6 * u53) (rval (cre (cdpe_inv c))) (a / s) /\ rel_e (6 * u53) (rval (cim (cdpe_inv c))) (- b / s) /\
+  esp_le (cre (cdpe_inv c)) (2 ^ 62) /\ esp_le (cim (cdpe_inv c)) (2 ^ 62).
+Proof. exact cinv_rel. Qed.
+Print Assumptions C12_cinv_rel.
+Theorem C12_cinv_mod : forall c, cnormalised c -> csmall c -> (mod2 (rval (cre c)) (rval (cim c)) <> 0)%R ->
+  let a := rval (cre c) in let b := rval (cim c) in let s := mod2 a b in
+  cnormalised (cdpe_inv c) /\
+  (dist2 (rval (cre (cdpe_inv c))) (rval (cim (cdpe_inv c))) (a / s) (- b / s) <= 36 * (u53 * u53) * mod2 (a / s) (- b / s))%R.
+Proof. exact cinv_mod. Qed.
+Print Assumptions C12_cinv_mod.
+
+(* cdpe_div (cdpe_div_eq is the same function of its arguments since fixes/C12_cdpe_div_eq.patch), as coded:
+   t = conj (w) / |w|^2 through cdpe_div_e, then the complex product z * t.  With 1/w = w1 + i w2:
+   |computed - z/w|^2 <= 72 u^2 |z|^2 |1/w|^2   (sqrt 72 < 8.5 ulps) *)
+Theorem C12_cdiv_rel : forall z w, cnormalised z -> cnormalised w -> csmall z -> csmall w ->
+  (mod2 (rval (cre w)) (rval (cim w)) <> 0)%R ->
+  let a := rval (cre z) in let b := rval (cim z) in
+  let s := mod2 (rval (cre w)) (rval (cim w)) in
+  let w1 := (rval (cre w) / s)%R in let w2 := (- rval (cim w) / s)%R in
+  cnormalised (cdpe_div z w) /\
+  (dist2 (rval (cre (cdpe_div z w))) (rval (cim (cdpe_div z w))) (a * w1 - b * w2) (b * w1 + a * w2)
+   <= 72 * (u53 * u53) * (mod2 a b * mod2 w1 w2))%R.
+Proof. exact cdiv_rel. Qed.
+Print Assumptions C12_cdiv_rel.
+Example C12_cinv_cdiv_nonvacuous :    (* 1 / (2i) = -i/2 ;  (3 + 4i) / (3 + 4i) = 1 up to the last bits *)
+  let two_i := Cdpe rdpe_zero (Rdpe fhalf 2) in let z34 := Cdpe (Rdpe fthreeq 2) (Rdpe fhalf 3) in
+  cnormalised two_i /\ csmall two_i /\
+  same_rdpe (cre (cdpe_inv two_i)) rdpe_zero /\ same_rdpe (cim (cdpe_inv two_i)) (Rdpe fmhalf 0) /\
+  esp (cre (cdpe_div z34 z34)) = 1 /\ cdpe_div_eq z34 z34 = cdpe_div z34 z34.
+Proof.
+  split. split; [split; [reflexivity|left; split; reflexivity]|apply normalised_half].
+  split. split; unfold esp_small; vm_compute; intro; discriminate.
+  split. vm_compute; split; reflexivity. split. vm_compute; split; reflexivity.
+  split. vm_compute; reflexivity. reflexivity.
+Qed.
+
+(* cdpe_mul_x / cdpe_mul_eq_x with the repaired rdpe_mul_d: the complex product by the converted pair, k^2 = 19,
+   for ALL finite doubles (zero, subnormal, DBL_MAX) *)
+Theorem C12_cmul_x_rel : forall c xr xi, cnormalised c -> csmall c -> is_finite xr = true -> is_finite xi = true ->
+  let a := rval (cre c) in let b := rval (cim c) in let p := B2R xr in let q := B2R xi in
+  cnormalised (cdpe_mul_x_fix c xr xi) /\
+  (dist2 (rval (cre (cdpe_mul_x_fix c xr xi))) (rval (cim (cdpe_mul_x_fix c xr xi))) (a * p - b * q) (b * p + a * q)
+   <= 19 * (u53 * u53) * (mod2 a b * mod2 p q))%R.
+Proof. exact cmul_x_fix_rel. Qed.
+Print Assumptions C12_cmul_x_rel.
+(* cdpe_mul_d / cdpe_div_d as repaired, in modulus: one ulp *)
+Theorem C12_cmul_d_mod : forall c d, cnormalised c -> is_finite d = true ->
+  LONG_MIN + 1074 <= esp (cre c) <= LONG_MAX - 1026 -> LONG_MIN + 1074 <= esp (cim c) <= LONG_MAX - 1026 ->
+  cnormalised (cdpe_mul_d_fix c d) /\
+  (dist2 (rval (cre (cdpe_mul_d_fix c d))) (rval (cim (cdpe_mul_d_fix c d))) (rval (cre c) * B2R d) (rval (cim c) * B2R d)
+   <= u53 * u53 * mod2 (rval (cre c) * B2R d) (rval (cim c) * B2R d))%R.
+Proof. exact cmul_d_fix_mod. Qed.
+Print Assumptions C12_cmul_d_mod.
+Theorem C12_cdiv_d_mod : forall c d, cnormalised c -> is_finite d = true -> B2R d <> 0%R ->
+  LONG_MIN + 1025 <= esp (cre c) <= LONG_MAX - 1075 -> LONG_MIN + 1025 <= esp (cim c) <= LONG_MAX - 1075 ->
+  cnormalised (cdpe_div_d_fix c d) /\
+  (dist2 (rval (cre (cdpe_div_d_fix c d))) (rval (cim (cdpe_div_d_fix c d))) (rval (cre c) / B2R d) (rval (cim c) / B2R d)
+   <= u53 * u53 * mod2 (rval (cre c) / B2R d) (rval (cim c) / B2R d))%R.
+Proof. exact cdiv_d_fix_mod. Qed.
+Print Assumptions C12_cdiv_d_mod.
+
+(* ---- cdpe_pow_si / cdpe_pow_eq_si as coded: repeated squaring on the unsigned counter |i| with cdpe_mul_eq and cdpe_sqr_eq,
+   cdpe_inv first for i < 0.  Vocabulary (DpeCpowDefs.v): complex numbers as pairs of reals, cval c = (Re, Im),
+   cmulR, cinvR, cpowR / cpowRZ the exact power,  crel e p v := |p - v| <= e |v| (squared),  Gp g n = (1+g)^n - 1,
+   g19 = 4.36 u (> sqrt 19 u: one complex product), g6 = 6 u (cdpe_inv), cesp c = largest |exponent| of the components.
+   Accumulated error in modulus (1+g19)^i - 1 for i >= 0 and (1+g19)^|i| (1+g6)^|i| - 1 for i < 0; the range hypothesis
+   keeps every intermediate inside |e| <= 2^60 *)
+Theorem C12_cpow_si_rel : forall c i, cnormalised c -> (i < 0 -> (m2 (cval c) <> 0)%R) ->
+  Z.abs i * (3 * cesp c + 2200) <= 2 ^ 59 ->
+  let n := Z.to_nat (Z.abs i) in
+  cnormalised (cdpe_pow_si c i) /\
+  crel (if i <? 0 then Gp g19 n + Gp g6 n + Gp g19 n * Gp g6 n else Gp g19 n)%R (cval (cdpe_pow_si c i)) (cpowRZ (cval c) i).
+Proof. exact cpow_si_rel. Qed.
+Print Assumptions C12_cpow_si_rel.
+(* ... in ulps: 4.36 (i + 1) for i >= 0 and 10.37 (|i| + 1) for i < 0, as long as 11 |i| (|i| + 1) <= 2^53 *)
+Theorem C12_cpow_si_ulps : forall c i, cnormalised c -> (i < 0 -> (m2 (cval c) <> 0)%R) ->
+  Z.abs i * (3 * cesp c + 2200) <= 2 ^ 59 -> 11 * (Z.abs i * (Z.abs i + 1)) <= 2 ^ 53 ->
+  crel (IZR (Z.abs i + 1) * (if i <? 0 then 1037 / 100 * u53 else 436 / 100 * u53))%R
+       (cval (cdpe_pow_si c i)) (cpowRZ (cval c) i).
+Proof. exact cpow_si_ulps. Qed.
+Print Assumptions C12_cpow_si_ulps.
+(* the loop itself, for any fuel, counter and partial products (the invariant of the induction) *)
+Theorem C12_cpow_loop_rel : forall (w : R * R) (B : Z), 1076 <= B ->
+  forall (fuel : nat) (rc t : cdpe) (i p q : Z),
+  0 <= i < 2 ^ Z.of_nat fuel -> 0 <= p -> 1 <= q ->
+  cnormalised rc -> crel (GpZ g19 p) (cval rc) (cpowZ w p) ->
+  cnormalised t -> crel (GpZ g19 (q - 1)) (cval t) (cpowZ w q) ->
+  cesp rc <= 1 + p * B -> cesp t + 1076 <= q * B ->
+  (p + q * i) * B <= 2 ^ 59 ->
+  let r := cpow_loop rdpe_mul fuel rc t i in
+  cnormalised r /\ crel (GpZ g19 (p + q * i)) (cval r) (cpowZ w (p + q * i)) /\ cesp r <= 1 + (p + q * i) * B.
+Proof. exact cpow_loop_rel. Qed.
+Print Assumptions C12_cpow_loop_rel.
+Example C12_cpow_si_nonvacuous :    (* (1 + i)^2 = 2i, (1 + i)^8 = 16, (2i)^-1 = -i/2, z^0 = 1 *)
+  let one_i := Cdpe (Rdpe fhalf 1) (Rdpe fhalf 1) in let two_i := Cdpe rdpe_zero (Rdpe fhalf 2) in
+  cnormalised one_i /\ cesp one_i = 1 /\ Z.abs 8 * (3 * cesp one_i + 2200) <= 2 ^ 59 /\
+  same_rdpe (cre (cdpe_pow_si one_i 2)) rdpe_zero /\ same_rdpe (cim (cdpe_pow_si one_i 2)) (Rdpe fhalf 2) /\
+  same_rdpe (cre (cdpe_pow_si one_i 8)) (Rdpe fhalf 5) /\ same_rdpe (cim (cdpe_pow_si one_i 8)) rdpe_zero /\
+  same_rdpe (cim (cdpe_pow_si two_i (-1))) (Rdpe fmhalf 0) /\ same_rdpe (cre (cdpe_pow_si one_i 0)) rdpe_one.
+Proof.
+  split. split; apply normalised_half.
+  vm_compute. repeat split; try reflexivity; intro; discriminate.
+Qed.
